@@ -23,14 +23,28 @@ func RandomSchemas(seed int64, n int) []*Schema {
 		nMsgs := 2 + rng.Intn(4)
 		var msgs []*mb
 		var top []*mb
+		// now and then a look-alike name: like a well-known type, like a map entry, like the file descriptor variable,
+		// a nested name that flattens like a top-level one (Order.Item / OrderItem)
+		topPool := []string{"Duration", "Timestamp", "Any", "Value", "Struct", "Empty", "LogEntry", "MapEntry", "File", "Pair", "Order", "OrderItem", "Item"}
+		nestPool := []string{"Entry", "LogEntry", "Pair", "Item", "KeyValue", "Kind"}
+		taken := map[string]bool{}
+		pick := func(scope string, pool []string, fallback string) string {
+			if rng.Intn(4) == 0 {
+				if n := pool[rng.Intn(len(pool))]; !taken[scope+"."+n] {
+					taken[scope+"."+n] = true
+					return n
+				}
+			}
+			return fallback
+		}
 		for m := 0; m < nMsgs; m++ {
 			// about a third of the messages are nested in an earlier one
 			if m > 0 && rng.Intn(3) == 0 {
 				parent := msgs[rng.Intn(len(msgs))]
-				msgs = append(msgs, parent.nested(fmt.Sprintf("N%d", m)))
+				msgs = append(msgs, parent.nested(pick(parent.path, nestPool, fmt.Sprintf("N%d", m))))
 				continue
 			}
-			t := newMsg(pkg, fmt.Sprintf("M%d", m))
+			t := newMsg(pkg, pick("", topPool, fmt.Sprintf("M%d", m)))
 			msgs = append(msgs, t)
 			top = append(top, t)
 		}
@@ -105,6 +119,13 @@ func RandomSchemas(seed int64, n int) []*Schema {
 				}
 				return fmt.Sprintf("o%d_%d", mi, k)
 			}
+			// an ordinary message that looks like a map entry
+			if nFields > 0 && rng.Intn(8) == 0 {
+				m.field("key", 1, mapKeyKinds[rng.Intn(len(mapKeyKinds))], "")
+				vk := allKinds[rng.Intn(len(allKinds))]
+				m.field("value", 2, vk, typeOf(vk))
+				continue
+			}
 			for k := 0; k < nFields; k++ {
 				kind := allKinds[rng.Intn(len(allKinds))]
 				switch rng.Intn(5) {
@@ -120,11 +141,22 @@ func RandomSchemas(seed int64, n int) []*Schema {
 					kk := mapKeyKinds[rng.Intn(len(mapKeyKinds))]
 					m.mapField(fname(), num(), kk, kind, typeOf(kind))
 				case 4:
-					o := m.oneof(oname(k))
+					on := oname(k)
+					first := fname()
+					// a hand-written oneof named like the synthetic oneof of a proto3-optional field (`_f` around f)
+					if rng.Intn(6) == 0 && !usedOneofs["_"+first] {
+						on = "_" + first
+						usedOneofs[on] = true
+					}
+					o := m.oneof(on)
 					nm := 1 + rng.Intn(4)
 					for j := 0; j < nm; j++ {
 						mk := allKinds[rng.Intn(len(allKinds))]
-						m.member(o, fname(), num(), mk, typeOf(mk))
+						fn := first
+						if j > 0 {
+							fn = fname()
+						}
+						m.member(o, fn, num(), mk, typeOf(mk))
 					}
 				}
 			}
